@@ -291,7 +291,7 @@ func (c02) Eval(c *Chooser, env *Env) *Outcome {
 		o.Sig = w.Hash() ^ r.K.TraceHash
 		return o
 	}
-	kind := c.Int("world.variantkind", 12) // 0,1: schedule+map order; 2: + other CPU count; 3: repeated execution; 4: repeated call on one Linter; 5: another GOMAXPROCS
+	kind := c.Int("world.variantkind", 13) // 0,1: schedule+map order; 2: + other CPU count; 3: repeated execution; 4: repeated call on one Linter; 5: another GOMAXPROCS
 	r0 := RunLint(w, nil, RunOpts{Canonical: true})
 	o.addRun(r0.K)
 	if v := runFailure("C02", r0.K); v != nil {
@@ -380,6 +380,21 @@ func (c02) Eval(c *Chooser, env *Env) *Outcome {
 				ro.PriorOutFail = 1 + c.Int("world.prioroutfailat", 300)
 				desc += fmt.Sprintf(" and whose output writer failed after %d bytes during that call", ro.PriorOutFail-1)
 			}
+		}
+	case 12:
+		// the Linter instance looked at a file of a repository before that repository was initialised
+		// (its .git did not exist yet): whatever it remembered about "no repository here" must not
+		// outlive the change - the reference is a fresh Linter now
+		if w.API == APIFiles && !kern.RaceLane && len(mw.AbsArgs) > 0 {
+			ro.ReuseLinter = true
+			ro.PriorFile = mw.AbsArgs[0]
+			for _, r := range mw.Repos {
+				if strings.HasPrefix(ro.PriorFile, r.Root+"/") && len(r.Root) > len(ro.PriorHideDir)-5 {
+					ro.PriorHideDir = r.Root + "/.git"
+				}
+			}
+			desc += ", on a Linter instance that linted " + ro.PriorFile + " before its repository was initialised (" + ro.PriorHideDir + " did not exist)"
+			o.probe("repository_initialised_between_two_calls", 1)
 		}
 	case 11:
 		// an embedding program (an editor integration) that hands each document to Lint in one buffer
